@@ -34,9 +34,87 @@ def family():
     return out
 
 
+HS_DIRECTED = [
+    # the write that finishes the first block file fails; the request times out, the node asks again from its last hash
+    ('rollover-write-fails', 2050, ['Check', 'Answer', 'Check', 'Arm', 'Answer', 'Timeout', 'Check', 'Answer', 'Check', 'Answer', 'Restart']),
+    ('rollover-write-fails-then-crash', 2050, ['Check', 'Answer', 'Check', 'Arm', 'Answer', 'Crash', 'Check', 'Answer', 'Check', 'Answer']),
+    ('second-rollover-fails', 2050, ['Check', 'Answer', 'Check', 'Answer', 'Check', 'Arm', 'Answer', 'Timeout', 'Check', 'Answer', 'Timeout', 'Crash']),
+    ('save-at-reconnect-fails', 1700, ['Check', 'Answer', 'Check', 'Arm', 'Timeout', 'Check', 'Answer', 'Crash', 'Check', 'Answer']),
+    ('crash-after-each-batch', 2050, ['Check', 'Answer', 'Crash', 'Check', 'Answer', 'Check', 'Answer', 'Crash', 'Check', 'Answer', 'Timeout', 'Crash']),
+    ('fault-at-the-exact-boundary', 1001, ['Check', 'Answer', 'Check', 'Arm', 'Answer', 'Timeout', 'Check', 'Answer', 'Restart']),
+]
+
+
+def header_sync(chk, thorough):
+    """spec/HeaderSync.tla: header-only sync before the start block across block-file roll-overs (1000 headers per file, real scale),
+    one failing write (the roll-over write inside BlockRepository.Add, or the save of a reconnect), crashes and clean restarts."""
+    import os
+    m = None
+    if not os.environ.get('VERIF_SKIP_MODEL'):
+        m = pipeline.model_check(chk, 'HeaderSync', 'MC_HeaderSync_quick.cfg', workers=8, timeout=900,
+                                 subst={'MaxSteps = 26': 'MaxSteps = 40', 'R = 3': 'R = 4'} if thorough else None)
+        if not m.ok:
+            chk.infra('model checking HeaderSync did not pass: %s %s' % (m.kind, m.violated))
+    scripts = []
+    for k in range(3 if thorough else 1):
+        for s in pipeline.sim_scripts(chk, 'HeaderSync', 'Sim_HeaderSync.cfg', num=40, depth=19, seed=chk.seed * 100 + 57 + k, prefix='hs'):
+            scripts.append({'id': s['id'], 'ptip': s['init']['ptip'], 'steps': [{'a': x['a'], 't': x['t']} for x in s['steps']]})
+    scripts += [{'id': 'directed-' + n, 'ptip': pt, 'steps': [{'a': a, 't': 0} for a in st]} for n, pt, st in HS_DIRECTED]
+    lines, _ = pipeline.replay_parallel(chk, 'spynode', 'TestVerifReplayHeaderSync', {'n': 2050, 'batch': 700}, scripts, nproc=14, timeout=1200)
+    lines = [l for l in lines if l['skip'] != 'not enabled']
+    nfault = sum(1 for l in lines if l['act']['a'] == 'Arm')
+    ncrash = sum(1 for l in lines if l['act']['a'] in ('Crash', 'Restart'))
+    chk.log('header-only sync: %d scenarios on the real headers handler / BlockRepository at 1000 headers per file, %d armed write faults, %d crashes / restarts, %d lines' % (
+        len(scripts), nfault, ncrash, len(lines)))
+    bad, rej = [], []
+    for sel, rs, r in pipeline.tlc_lines_parallel(chk, 'Props_HeaderSync', 'Props_HeaderSync.cfg', lines, 'props_result.json', 4, 900):
+        bad += [(f, sel[j - 1]) for f, j in rs['bad']]
+    for sel, rs, r in pipeline.tlc_lines_parallel(chk, 'Trace_HeaderSync', 'Trace_HeaderSync.cfg', lines, 'trace_result.json', 4, 900):
+        rej += [sel[j - 1] for j in rs['rej']]
+    ids = {s['id']: s for s in scripts}
+    seen = set()
+    nbad = 0
+    for f, l in sorted(bad, key=lambda x: x[1]):
+        ln = lines[l - 1]
+        if ln['tr'] in seen:
+            continue
+        sc = ids[ln['tr']]
+        if f == 'Convergence' and any(x['a'] == 'Arm' for x in sc['steps']):
+            # the property demands a consistent chain after a failed operation, not progress: noted only
+            chk.notes.append('HeaderSync: scenario %s (with a failed write) did not reach the peer tip by the end' % ln['tr'])
+            continue
+        seen.add(ln['tr'])
+        nbad += 1
+        idx = [k for k, x in enumerate(lines) if x['tr'] == ln['tr']]
+        i = idx.index(l - 1)
+        chk.violation(f, 'header-only sync scenario %s (peer tip %d) step %d %s: repository holds runs %s, state last hash = header %s, a new node loads %s %s' % (
+            ln['tr'], sc['ptip'], i, ln['act']['a'], [(r['a'], r['b']) for r in ln['st']['chain']], ln['st']['last'],
+            [(r['a'], r['b']) for r in ln['st']['schain']], ln['st']['sload']),
+            {'script': {'id': ln['tr'], 'module': 'HeaderSync', 'ptip': sc['ptip'], 'steps': sc['steps']}}, {'line': ln})
+    drift = sorted({lines[l - 1]['tr'] for l in rej})
+    if drift:
+        chk.notes.append('HeaderSync conformance drift: %d rejected lines (scenarios %s)' % (len(rej), drift[:5]))
+        chk.log('DRIFT: Trace_HeaderSync rejected %d recorded steps (scenarios %s)' % (len(rej), drift[:5]))
+        l = rej[0]
+        chk.log('  rejected: %s skip=%r\n     before %s\n     after  %s' % (lines[l - 1]['act'], lines[l - 1]['skip'], json.dumps(lines[l - 2]['st']), json.dumps(lines[l - 1]['st'])))
+    return {'scenarios': len(scripts), 'faults': nfault, 'crashes': ncrash, 'lines': len(lines), 'rejected': len(rej), 'false_instances': nbad,
+            'model_states': m.distinct if m else 0}
+
+
 def main(argv):
     chk = core.Check('C10', 'fault_enumeration', argv)
     thorough = chk.tier == 'thorough'
+    if chk.replay:
+        rp = json.load(open(chk.replay))['replay'].get('script', {})
+        if rp.get('module') == 'HeaderSync':
+            lines, _ = pipeline.replay_parallel(chk, 'spynode', 'TestVerifReplayHeaderSync', {'n': 2050, 'batch': 700}, [{'id': rp['id'], 'ptip': rp['ptip'], 'steps': rp['steps']}], nproc=1)
+            lines = [l for l in lines if l['skip'] != 'not enabled']
+            for sel, rs, r in pipeline.tlc_lines_parallel(chk, 'Props_HeaderSync', 'Props_HeaderSync.cfg', lines, 'props_result.json', 1, 600):
+                for f, j in rs['bad']:
+                    chk.violation(f, 'header-only sync scenario %s: %s' % (rp['id'], lines[sel[j - 1] - 1]['st']), {'script': rp}, {})
+            chk.finish({'states': 0, 'transitions': 0, 'evaluations': 1, 'distinct_nontrivial': 1, 'rule': 'replay of one header-only sync scenario',
+                        'samples': [rp], 'exhaustive': False})
+            return
     m = pipeline.model_check(chk, 'BlockStore', 'MC_BlockStore_crash.cfg', workers=12, timeout=900,
                              subst={'MaxId = 8': 'MaxId = 10', 'MaxH = 8': 'MaxH = 10'} if thorough else None)
     if not m.ok:
@@ -136,9 +214,11 @@ def main(argv):
             tr, ln['skip'] or ('after ' + ln['act']['a']), ln['st']['chain'], ln['st']['ptip'], ln['st']['inSync'], ln['st']['lastSaved']),
             {'scenario': scen_ids.get(base), 'point': tr.split('#')[1]},
             {'trace': trace, 'i': idx.index(l), 'par': t['par'], 'sig': sig, 'line': ln, 'env': 'crash'})
+    hs = header_sync(chk, thorough)
     nmut = sum(l['of'] for l in crash if l['k'] == l['of'])
     chk.finish({
-        'evaluations': len(crash) + ncrash + nfault,
+        'header_only_sync': hs,
+        'evaluations': len(crash) + ncrash + nfault + hs['faults'] + hs['crashes'],
         'distinct_nontrivial': len({(l['tr'], l['k']) for l in crash if 0 < l['k'] < l['of']}) + ncrash + nfault,
         'rule': 'one evaluation = one crash point (a strict prefix of the storage mutations recorded while replaying a scenario, materialised as a '
                 'storage image and loaded by fresh real code) or one injected single-operation storage error; non-trivial = the prefix is '
@@ -153,5 +233,6 @@ def main(argv):
     }, assumptions=[
         'a crash loses everything but the storage contents after the last completed mutation (no torn writes)',
         'storage back end: MockStorage behind a recording / fault-injecting wrapper',
-        'node-level scenarios use the 7-block tree (single block file); file-boundary crash points are covered at store level with real 1000-header files',
+        'node-level scenarios use the 7-block tree (single block file); file-boundary crash points are covered at store level with real 1000-header files and, '
+        'for the header-only sync before the start block, by the HeaderSync scenarios (2050 headers, crash / restart after any step, the next write failing once)',
     ])
